@@ -353,6 +353,9 @@ func run(c *h.Ctx, cs Case) {
 		ferr := errInjected
 		if cs.FaultKind == "eof" {
 			ferr = io.EOF
+		} else {
+			// "fails at any point" includes right after the last byte (an error instead of the final EOF)
+			k = cs.K % (len(art) + 1)
 		}
 		r := &faultReader{data: art, limit: k, ferr: ferr, chunk: cs.Chunk}
 		var got outcome
@@ -578,8 +581,11 @@ func TestFaultEnumeration(t *testing.T) {
 					}
 				}
 				// read faults at every offset
-				for k := 0; k < len(b.bytes); k++ {
+				for k := 0; k <= len(b.bytes); k++ {
 					for _, fk := range []string{"error", "eof"} {
+						if k == len(b.bytes) && fk == "eof" {
+							continue
+						}
 						cs := base
 						cs.Op, cs.FaultKind, cs.K = "readfault", fk, k
 						if k%3 == 0 {
